@@ -288,8 +288,8 @@ namespace Pistache
                 const auto weakPeer = peer;
                 p.then(
                     [=](uint64_t) {
-                        state->store(false);
-                        onTimeout(h, v, tr, weakPeer);
+                        if (state->exchange(false))
+                            onTimeout(h, v, tr, weakPeer);
                         close(fd);
                     },
                     [=](std::exception_ptr exc) { std::rethrow_exception(exc); });
